@@ -66,6 +66,23 @@ type FactEngine struct {
 	tracked map[FKey]bool
 	phiDeps map[FKey]map[*ssa.Phi]bool
 	ids     map[FKey]int
+	// condPhis: bool-typed phis that are (possibly negated) branch conditions.
+	// A flag such as `found := false; if c { _, found = m[k] }; if found {..}`
+	// is such a phi; on each path it stands for the value of the edge the
+	// path came along.
+	condPhis map[*ssa.Phi]bool
+}
+
+func stripNot(v ssa.Value) (ssa.Value, bool) {
+	neg := false
+	for {
+		if u, ok := v.(*ssa.UnOp); ok && u.Op == token.NOT {
+			v = u.X
+			neg = !neg
+			continue
+		}
+		return v, neg
+	}
 }
 
 func (e *FactEngine) init() {
@@ -88,8 +105,33 @@ func (e *FactEngine) init() {
 	e.tracked = map[FKey]bool{}
 	e.phiDeps = map[FKey]map[*ssa.Phi]bool{}
 	e.ids = map[FKey]int{}
+	e.condPhis = map[*ssa.Phi]bool{}
+	for _, b := range e.Fn.Blocks {
+		if len(b.Instrs) == 0 {
+			continue
+		}
+		if iff, ok := b.Instrs[len(b.Instrs)-1].(*ssa.If); ok {
+			if v, _ := stripNot(iff.Cond); v != nil {
+				if p, ok := v.(*ssa.Phi); ok {
+					e.condPhis[p] = true
+				}
+			}
+		}
+	}
 	for k, n := range count {
 		if n >= 2 || (e.Track != nil && e.Track(k)) {
+			e.track(k)
+		}
+	}
+}
+
+// track registers key k as tracked (idempotent).
+func (e *FactEngine) track(k FKey) {
+	if e.tracked[k] {
+		return
+	}
+	{
+		{
 			e.tracked[k] = true
 			deps := map[*ssa.Phi]bool{}
 			seen := map[ssa.Value]bool{}
@@ -141,17 +183,31 @@ func (e *FactEngine) canon(f Facts) string {
 func (e *FactEngine) AtBlock(target *ssa.BasicBlock, visit func(f Facts)) bool {
 	e.init()
 	type st struct {
-		b *ssa.BasicBlock
-		f Facts
+		b    *ssa.BasicBlock
+		pred *ssa.BasicBlock
+		f    Facts
+		bind map[*ssa.Phi]ssa.Value // condition phis resolved along this path
+	}
+	canonBind := func(m map[*ssa.Phi]ssa.Value) string {
+		if len(m) == 0 {
+			return ""
+		}
+		parts := make([]string, 0, len(m))
+		for p, v := range m {
+			parts = append(parts, fmt.Sprintf("%s=%p", p.Name(), v))
+		}
+		sort.Strings(parts)
+		return strings.Join(parts, ";")
 	}
 	seen := map[string]bool{}
-	work := []st{{e.Fn.Blocks[0], Facts{}}}
+	work := []st{{e.Fn.Blocks[0], nil, Facts{}, nil}}
 	states := 0
 	for len(work) > 0 {
 		s := work[len(work)-1]
 		work = work[:len(work)-1]
 		// kill facts depending on this block's phis
 		f := s.f
+		bind := s.bind
 		var phis []*ssa.Phi
 		for _, in := range s.b.Instrs {
 			if p, ok := in.(*ssa.Phi); ok {
@@ -175,8 +231,34 @@ func (e *FactEngine) AtBlock(target *ssa.BasicBlock, visit func(f Facts)) bool {
 				}
 			}
 			f = nf
+			// bind the condition phis of this block to the value of the edge we came along
+			if s.pred != nil {
+				idx := -1
+				for i, p := range s.b.Preds {
+					if p == s.pred {
+						idx = i
+					}
+				}
+				for _, p := range phis {
+					if !e.condPhis[p] || idx < 0 || idx >= len(p.Edges) {
+						continue
+					}
+					v := p.Edges[idx]
+					if q, ok := v.(*ssa.Phi); ok {
+						if bv, ok := bind[q]; ok {
+							v = bv
+						}
+					}
+					nb := make(map[*ssa.Phi]ssa.Value, len(bind)+1)
+					for kk, vv := range bind {
+						nb[kk] = vv
+					}
+					nb[p] = v
+					bind = nb
+				}
+			}
 		}
-		key := fmt.Sprintf("%d|%s", s.b.Index, e.canon(f))
+		key := fmt.Sprintf("%d|%s|%s", s.b.Index, e.canon(f), canonBind(bind))
 		if seen[key] {
 			continue
 		}
@@ -193,18 +275,66 @@ func (e *FactEngine) AtBlock(target *ssa.BasicBlock, visit func(f Facts)) bool {
 		}
 		last := s.b.Instrs[len(s.b.Instrs)-1]
 		if iff, ok := last.(*ssa.If); ok {
-			k, pos := NormCond(iff.Cond)
+			cond := iff.Cond
+			// a condition that is a resolved phi stands for the value it was bound to
+			if v, neg := stripNot(cond); v != nil {
+				if p, isPhi := v.(*ssa.Phi); isPhi {
+					if bv, bound := bind[p]; bound {
+						if c, isConst := bv.(*ssa.Const); isConst && c.Value != nil {
+							truth := c.Value.String() == "true"
+							if neg {
+								truth = !truth
+							}
+							succ := s.b.Succs[1]
+							if truth {
+								succ = s.b.Succs[0]
+							}
+							work = append(work, st{succ, s.b, f, bind})
+							continue
+						}
+						if _, stillPhi := bv.(*ssa.Phi); !stillPhi {
+							k2, pos2 := NormCond(bv)
+							if neg {
+								pos2 = !pos2
+							}
+							if e.Track != nil && e.Track(k2) {
+								e.track(k2)
+							}
+							if e.tracked[k2] {
+								for i, succ := range s.b.Succs {
+									truth := (i == 0) == pos2
+									if old, ok := f[k2]; ok {
+										if old != truth {
+											continue
+										}
+										work = append(work, st{succ, s.b, f, bind})
+										continue
+									}
+									nf := make(Facts, len(f)+1)
+									for kk, vv := range f {
+										nf[kk] = vv
+									}
+									nf[k2] = truth
+									work = append(work, st{succ, s.b, nf, bind})
+								}
+								continue
+							}
+						}
+					}
+				}
+			}
+			k, pos := NormCond(cond)
 			for i, succ := range s.b.Succs {
 				truth := (i == 0) == pos // value of key on this edge
 				if !e.tracked[k] {
-					work = append(work, st{succ, f})
+					work = append(work, st{succ, s.b, f, bind})
 					continue
 				}
 				if old, ok := f[k]; ok {
 					if old != truth {
 						continue // infeasible
 					}
-					work = append(work, st{succ, f})
+					work = append(work, st{succ, s.b, f, bind})
 					continue
 				}
 				nf := make(Facts, len(f)+1)
@@ -212,12 +342,12 @@ func (e *FactEngine) AtBlock(target *ssa.BasicBlock, visit func(f Facts)) bool {
 					nf[kk] = vv
 				}
 				nf[k] = truth
-				work = append(work, st{succ, nf})
+				work = append(work, st{succ, s.b, nf, bind})
 			}
 			continue
 		}
 		for _, succ := range s.b.Succs {
-			work = append(work, st{succ, f})
+			work = append(work, st{succ, s.b, f, bind})
 		}
 	}
 	return true
